@@ -33,7 +33,10 @@ pub fn gen_ssa(rng: &mut Rng, n_ops: usize, n_in: usize, n_out: usize, width: us
     }
     let n = defs.len();
     let mut outs: Vec<usize> = vec![n - 1];
-    for _ in 1..n_out { outs.push(rng.below(n)); }
+    for _ in 1..n_out {
+        // a later output may repeat an earlier one (the same value listed twice)
+        if outs.len() >= 2 && rng.below(4) == 0 { let k = rng.below(outs.len()); outs.push(outs[k]); } else { outs.push(rng.below(n)); }
+    }
     // liveness
     let mut used = vec![false; n];
     for &o in &outs { used[o] = true; }
@@ -138,7 +141,8 @@ pub fn alloc_cex(thorough: bool, seed: u64) -> Report {
     for i in 0..rounds {
         let n_ops = 1 + rng.below(if i % 5 == 0 { 60 } else { 14 });
         let n_in = 1 + rng.below(3);
-        let n_out = 1 + rng.below(3);
+        // mostly 1..=3 outputs; every 4th tape has many outputs (more than small budgets have registers), with repeats
+        let n_out = if i % 4 == 3 { 4 + rng.below(6) } else { 1 + rng.below(3) };
         let width = 1 + rng.below(if i % 3 == 0 { 40 } else { 6 });
         let (ssa, n_in) = gen_ssa(&mut rng, n_ops, n_in, n_out, width);
         if let Err(why) = ssa_wf(&ssa.tape, ssa.tape.len(), true) {
@@ -151,7 +155,7 @@ pub fn alloc_cex(thorough: bool, seed: u64) -> Report {
         one::<12>(&ssa, n_in, &mut rng, &mut r, "alloc_cex", false);
         one::<255>(&ssa, n_in, &mut rng, &mut r, "alloc_cex", false);
     }
-    r.space = format!("{rounds} seeded random well-formed SSA tapes (1..=60 operation nodes, all 49 opcode forms, 1..=3 inputs and outputs, operand reach up to 40 values back so that far more than N values are live) x N in {{3,4,5,12,255}} x 3 input vectors from the special grid x 3 different initial slot contents; reference register machine and the real VM point evaluator vs reference SSA machine (seed {seed})");
+    r.space = format!("{rounds} seeded random well-formed SSA tapes (1..=60 operation nodes, all 49 opcode forms, 1..=3 inputs, 1..=3 outputs (every 4th tape: 4..=9 outputs with repeated roots, i.e. more outputs than small budgets have registers), operand reach up to 40 values back so that far more than N values are live) x N in {{3,4,5,12,255}} x 3 input vectors from the special grid x 3 different initial slot contents; reference register machine and the real VM point evaluator vs reference SSA machine (seed {seed})");
     r.distinct = r.cases;
     r.exhaustive = false;
     r.sample(json!({"N": 3, "tape": "[Output(0,0), AddRegReg(0,1,2), MulRegImm(1,2,3.0), Input(2,0)]"}));
